@@ -1,6 +1,7 @@
 //! fpsim — deterministic simulation of find-parser's environment (clock, hash keys, caller
 //! threads, processes, call histories) and of the scanner threads that execute its output.
 
+mod astwalk;
 mod c15;
 mod c16;
 mod c20;
